@@ -139,6 +139,16 @@ CLAIMS = {
              "programs; each is rendered (expression forms: function, cast, case, arithmetic, window, parenthesised, nested; join styles) and the "
              "(source, target) pairs the real analyser reports are decided by Trace_Col.",
         note="trusted: TLC, sqlfluff as parser, the renderer harness/render_col.py; one FROM scope with derived tables one level deep (deeper nesting is Stmt.tla's table-level business); expression forms are enumerated by the renderer"),
+    "C13": dict(
+        design="5/C13, 3.2",
+        technique="TLA+ model checking (TLC) of Col.tla with metadata knowledge (every known/unknown assignment) + TLC-generated programs analysed with the dict provider, SQLAlchemy on in-memory sqlite and without provider + TLC trace validation (Trace_Col incl. the with/without-metadata table clause)",
+        text="Col.tla carries which tables (and whether the INSERT target) the provider knows; Flow defines wildcard expansion to exactly the "
+             "known columns, attribution of unqualified columns to exactly the in-scope tables listing them, target positions named by a known "
+             "target, and the explicit column list winning; TLC enumerates every assignment and prints the programs; each is analysed with "
+             "DummyMetaDataProvider, with SQLAlchemyMetaDataProvider on an in-memory sqlite holding the same knowledge, and without any "
+             "provider (= the program with the knowledge erased); each observation incl. 'table lineage equals the one without metadata' is "
+             "decided by Trace_Col.",
+        note="trusted: TLC, the renderer, sqlite as the database behind the SQLAlchemy provider; knowledge: s.a(c,d), s.b(c,e), target t1..tn"),
 }
 
 NOT_YET = "check not built yet in this round; planned as described in DESIGN.md section 5"
